@@ -50,6 +50,34 @@ def oracle(f, ops, rng):
     if list(p1) != list(p2):
         fails.append(rep("skip-independent", f"prediction with skip_channels={skip_given} depends on the values in the skipped columns"))
         return fails
+    # ANY values in the skipped columns: unknown (NaN), out of range, not complement coded, the library's own 0.5 filler
+    Q3 = Q.copy()
+    filler = rng.choice(["nan", "7.0", "-3.0", "uniform", "0.5", "0.9"])
+    for s in skip:
+        lo, hi = est._channel_indices[s]
+        Q3[:, lo:hi] = {"nan": np.nan, "7.0": 7.0, "-3.0": -3.0, "0.5": 0.5, "0.9": 0.9}.get(filler, 0.0)
+        if filler == "uniform":
+            Q3[:, lo:hi] = np.array([[rng.random() for _ in range(hi - lo)] for _ in range(len(Q))])
+    try:
+        with np.errstate(all="ignore"):
+            p3 = est.predict(Q3, skip_channels=list(skip_given))
+        if list(p3) != list(p1):
+            fails.append(rep("skip-independent", f"prediction with skip_channels={skip_given} changes when the skipped columns hold {filler}"))
+            return fails
+    except Exception as e:
+        fails.append(rep("skip-filler-rejected", f"predict with skip_channels={skip_given} raises {type(e).__name__} when the skipped columns hold {filler}: {str(e)[:60]}"))
+        return fails
+    # the single-sample entry point takes the same (positive or negative) channel numbers
+    try:
+        for j in range(len(Q)):
+            a = est.step_pred(Q1[j], skip_channels=list(skip_given))
+            b = est.step_pred(Q1[j], skip_channels=list(skip))
+            if a != b or a != int(p1[j]):
+                fails.append(rep("step_pred-skip-index", f"step_pred(x, skip_channels={skip_given}) = {a}, step_pred(x, skip_channels={skip}) = {b}, predict = {int(p1[j])}"))
+                return fails
+    except Exception as e:
+        fails.append(rep("step_pred-skip-index", f"step_pred with skip_channels={skip_given} raises {type(e).__name__}"))
+        return fails
     # = arg-max over the remaining channels
     for j, x in enumerate(Q):
         T = []
@@ -114,6 +142,84 @@ def oracle(f, ops, rng):
                 fails.append(rep("split-join-dtype", f"join/split changes the values of channels supplied with dtypes {[np.dtype(d).name for d in dts]}"))
                 break
     return fails
+
+
+def rounding_oracle(rng):
+    """non-dyadic gammas, one-decimal data, all but one channel withheld: the prediction is the (first) arg-max of the
+    supplied channel's own activation - a constant contributed by the withheld channels must not blur it"""
+    import artlib
+    nch = 3
+    g = rng.choice([g_ for g_ in ([0.2, 0.3, 0.5], [0.5, 0.2, 0.3], [0.1, 0.2, 0.7], [0.3, 0.3, 0.4], [0.3, 0.2, 0.5], [0.4, 0.1, 0.5]) if sum(g_) == 1.0])
+    kind = rng.choice(["Fuzzy", "Fuzzy", "Gauss"])
+    cc = lambda a: np.hstack([a, 1 - a])
+    if kind == "Fuzzy":
+        # two raw features per channel on a one-decimal grid: sums such as 0.1+0.2 and 0.3 differ in the last bits, so
+        # activations that are equal (or 1-2 ulp apart) in exact arithmetic are distinct binary64 numbers
+        mods = [artlib.FuzzyART(rng.choice([0.5, 0.7, 0.8]), rng.choice([1e-2, 1e-3]), 1.0) for _ in range(nch)]
+        dims = [4] * nch
+        n = rng.randrange(8, 20)
+        raws = [np.array([[rng.randrange(0, 11) / 10 for _ in range(2)] for _ in range(n)]) for _ in range(nch)]
+        X = np.hstack([cc(r) for r in raws])
+    else:
+        # narrow Gaussian categories: a query a few grid steps away has densities far below 1e-16
+        mods = [artlib.FuzzyART(0.7, 1e-3, 1.0), artlib.GaussianART(0.5, np.array([0.004]), 1e-10), artlib.FuzzyART(0.7, 1e-3, 1.0)]
+        dims = [2, 1, 2]
+        n = rng.randrange(6, 16)
+        raw = np.array([[rng.randrange(0, 11) / 10 for _ in range(nch)] for _ in range(n)])
+        X = np.hstack([cc(raw[:, 0:1]), raw[:, 1:2], cc(raw[:, 2:3])])
+    try:
+        est = artlib.FusionART(mods, g, dims)
+        with np.errstate(all="ignore"):
+            est.fit(X)
+    except Exception:
+        return None
+    keep = 1 if kind == "Gauss" else rng.randrange(nch)
+    skip = [k for k in range(nch) if k != keep]
+    lo, hi = est._channel_indices[keep]
+    m = est.modules[keep]
+    # queries between the grid points (equidistant from several categories, or far from narrow Gaussian ones)
+    Q = X.copy()
+    if kind == "Gauss":
+        Q[:, lo:hi] = np.array([[rng.randrange(0, 10) / 10 + 0.05] for _ in range(len(Q))])
+    else:
+        rq = np.array([[rng.randrange(0, 10) / 10 + rng.choice([0.0, 0.05]) for _ in range(2)] for _ in range(len(Q))])
+        Q[:, lo:hi] = cc(rq)
+    try:
+        with np.errstate(all="ignore"):
+            pred = est.predict(Q, skip_channels=skip)
+        for j, x in enumerate(Q):
+            a = [float(m.category_choice(x[lo:hi], w, params=m.params)[0]) * float(g[keep]) for w in m.W]
+            best = max(a)
+            want = a.index(best)
+            if int(pred[j]) != want:
+                return {"signature": "FusionART/skip-argmax-rounding",
+                        "text": f"only channel {keep} supplied: its weighted activations are {a}, arg-max {want}, predict(skip_channels={skip}) returned {int(pred[j])}",
+                        "replay": {"gammas": g, "channel_dims": dims, "modules": [type(mm).__name__ + repr(mm.params) for mm in mods], "X": X.tolist(), "query_row": Q[j].tolist(), "skip_channels": skip}}
+    except Exception as e:
+        return {"signature": "FusionART/skip-predict-raises", "text": f"{type(e).__name__}: {str(e)[:80]}", "replay": {"X": X.tolist(), "skip_channels": skip}}
+    return None
+
+
+def art1_target_oracle(rng):
+    """a binary (ART1) channel as the withheld / target channel: the library's own filler must be usable"""
+    import artlib
+    n = rng.randrange(5, 12)
+    raw = np.array([[rng.random()] for _ in range(n)])
+    Xa = np.hstack([raw, 1 - raw])
+    Xb = np.array([[float(rng.randrange(2)) for _ in range(3)] for _ in range(n)])
+    Xb[Xb.sum(axis=1) == 0, 0] = 1.0
+    est = artlib.FusionART([artlib.FuzzyART(0.7, 1e-3, 1.0), artlib.ART1(0.5, 2.0)], [0.5, 0.5], [2, 3])
+    try:
+        est.fit(np.hstack([Xa, Xb]))
+        Q = est.join_channel_data([Xa], skip_channels=[1])
+        p = est.predict(Q, skip_channels=[rng.choice([1, -1])])
+        alone = [int(np.argmax([est.modules[0].category_choice(x, w, params=est.modules[0].params)[0] for w in est.modules[0].W])) for x in Xa]
+        if [int(v) for v in p] != alone:
+            return {"signature": "FusionART/skip-argmax", "text": "prediction with the ART1 channel withheld is not the arg-max of the Fuzzy channel", "replay": {"Xa": Xa.tolist(), "Xb": Xb.tolist()}}
+    except Exception as e:
+        return {"signature": "FusionART/skip-filler-rejected", "text": f"FusionART([FuzzyART, ART1]): predict on join_channel_data(..., skip_channels=[1]) raises {type(e).__name__}: {str(e)[:60]}",
+                "replay": {"Xa": Xa.tolist(), "Xb": Xb.tolist()}}
+    return None
 
 
 def prepare_restore(rng):
@@ -183,6 +289,10 @@ def main():
         r = prepare_restore(rng)
         if r:
             fails.append(r)
+        for g_ in (rounding_oracle, art1_target_oracle):
+            r = g_(rng)
+            if r:
+                fails.append(r)
     codes, bad = flow.coq_corr("C11", "RunFusion", strs, shard=60, check_fn="fcheck", extra_imports="From ARTcorr Require Import RunBase.\n")
     for b in bad:
         v.notes.append("coq shard failed: " + b[-600:])
@@ -190,10 +300,10 @@ def main():
     v.cov.update({
         "evaluations": n, "distinct_nontrivial": nontriv,
         "rule": "trained FusionART models (2-4 channels), every query predicted with a random non-empty proper subset of channels skipped, given as positive or negative indices, "
-                "with two different valid fillers in the skipped columns; non-trivial = distinct case with a skip query on a model with >= 2 categories",
+                "with two different valid fillers and one arbitrary filler (NaN, out of range, not complement coded, 0.5) in the skipped columns, step_pred with the same indices; non-dyadic gammas with all but one channel withheld (60 models); an ART1 channel withheld; non-trivial = distinct case with a skip query on a model with >= 2 categories",
         "traces_validated_against_impl": sum(1 for x in codes if x == 0),
         "distribution": stats, "samples": summ[:1]})
-    v.assumptions = ["fillers are restricted to values the skipped channel's validation accepts (predict validates all channels)",
+    v.assumptions = [
                      "prepare/restore inverse to 1e-9 on the implementation (exact in the real-number reading)"]
     sys.exit(v.finish())
 
